@@ -211,7 +211,8 @@ size_t varintPFORReadMeta(const uint8_t *src, varintPFORMeta *meta) {
     meta->exceptionMarker = varintPFORCalculateMarker(meta->width);
 
     /* Skip to exception count (after all values) */
-    const uint8_t *exceptionCountPtr = src + (meta->count * meta->width);
+    const uint8_t *exceptionCountPtr =
+        src + ((size_t)meta->count * meta->width);
     varintTaggedGet64(exceptionCountPtr, (uint64_t *)&meta->exceptionCount);
 
     /* threshold is not stored, set to default */
